@@ -22,7 +22,7 @@ BUDGET_S = {'quick': 240, 'thorough': 1800}
 SIDS = (1, 2, 0x7FFFFFFF)
 BLOB = bytes((i * 37 + 11) % 256 for i in range(300))
 PAYLOADS = (b'', b'\x01', b'\x00\xff\x7f', BLOB)
-N31 = (1, 2, 0x7FFFFFFF)
+N31 = (1, 2, 0x7FFFFFFF, 0x80000000, 0xFFFFFFFF)  # the request-n field is 32 bits on the wire
 POS = (0, 1, 0x7FFFFFFFFFFFFFFF)
 MS = (0, 1, 0x7FFFFFFF)
 MIMES = (b'a', b'application/json', b'm' * 127)
